@@ -43,6 +43,11 @@ class Pool:
             lines.append('el.smul.Ef %s %x' % (E(b[i]), [R - 1, 2, (R + 1) // 2, 5, gen.rand_field(rng, R)][i % 5]))
         out = harness.run_script(build, lines)
         self.derived = [parseE(o) for o in out if ',' in o]
+        # only valid representatives may seed further operations (an implementation that hands out an invalid one is reported by the
+        # property predicates, which see the same operations; the generators must not crash on it)
+        self.invalid = [c for c in self.base + self.derived if len(c) != 4 or not pyref.valid(c)]
+        self.base = [c for c in self.base if len(c) == 4 and pyref.valid(c)]
+        self.derived = [c for c in self.derived if len(c) == 4 and pyref.valid(c)]
         self.all = [IDENT, T2REP] + self.base + self.derived
     def reps(self, c, rng):
         """other representations of the same group element"""
